@@ -273,12 +273,14 @@ impl Prop for C02 {
 			if i % nshards != shard {
 				continue;
 			}
-			let x = "x".repeat(*n);
+			let x = gen::filler(*n);
 			// the components that are NOT being stretched are delimiter-rich (a second '?', '/', ':' and '@' where allowed)
 			let sch = if *n == 0 { "s".to_string() } else { format!("s{}", &x[1..]) };
 			for (k, text) in [
 				format!("s://u@h/p?q?r/s:@#{x}"), format!("s://u@h/p?{x}#f?g/h:@"), format!("s://u:v@h:1/{x}?q?r#f?g"), format!("s://{x}@h/p?q#f"), format!("s://u@{x}:1/p?q#f"), format!("{x}/p:q?q?r#f"),
-				format!("//h/a/{x}/b?{x}#{x}"), format!("{sch}://u@h:1/p?q?r#f?g"), format!("{sch}:p?q#f"), format!("s://h/{x}?a=1?b=2"), format!("s://h?{x}?a=1?b=2#f#"), format!("s://u@h:{d}/p?q", d = "1".repeat(*n)), format!("s://h/{x}#f?g=1"), format!("s://h/{x}#{x}?x=1"), format!("s:{x}#?{x}"), format!("//h{p}#{x}?", p = if *n == 0 { String::new() } else { format!("/{}", &x[1..]) }),
+				format!("//h/a/{x}/b?{x}#{x}"), format!("{sch}://u@h:1/p?q?r#f?g"), format!("{sch}:p?q#f"), format!("s://h/{x}?a=1?b=2"), format!("s://h?{x}?a=1?b=2#f#"), format!("s://u@h:{d}/p?q", d = gen::digits(*n)), format!("s://h/{x}#f?g=1"), format!("s://h/{x}#{x}?x=1"),
+				// shapes that scheme-aware or browser-aware code likes to special-case
+				format!("data:text/plain;base64,QUJD{x}%3D-_.~?q#f"), format!("data:;base64,{x}.{x}#f"), format!("mailto:{x}@example.org?subject={x}"), format!("https://h/p#intro:~:text={x}"), format!("https://h/p?q#{x}:~:text=a,b"), format!("file:///C:/{x}/..#!/{x}"), format!("javascript:{x}//?#"), format!("urn:isbn:{x}?+r?=q#f"), format!("s:{x}#?{x}"), format!("//h{p}#{x}?", p = if *n == 0 { String::new() } else { format!("/{}", &x[1..]) }),
 			].into_iter().enumerate() {
 				let text = if text.ends_with("#f#") { text[..text.len() - 1].to_string() } else { text };
 				let fam = if (i + k) % 2 == 0 { Fam::Uri } else { Fam::Iri };
